@@ -23,14 +23,25 @@ Fixpoint shape (name : string) (l : list (string * string)) : string :=
     other shapes the translator reports ("try_from:<T>", a hand-written impl, one it does not
     recognise) are modelled as validating; that the implementation validates is then shown per
     input by the correspondence check. *)
-Definition not_plain_derive (name : string) : bool :=
-  negb (String.eqb (shape name serde_shapes) "derive").
+Definition invariant_types : list string :=
+  ["newtype"; "RawShortMessage"; "ControlChange14BitMessage"; "ParameterNumberMessage";
+   "ShortMessageType"].
+
+Definition not_plain_derive (shapes : list (string * string)) (name : string) : bool :=
+  negb (String.eqb (shape name shapes) "derive").
 
 Theorem C19_source_uses_validating_shapes :
-  forallb not_plain_derive
-    ["newtype"; "RawShortMessage"; "ControlChange14BitMessage"; "ParameterNumberMessage";
-     "ShortMessageType"] = true.
+  forallb (not_plain_derive serde_shapes) invariant_types = true.
 Proof. reflexivity. Qed.
+
+(** ... and in *every* feature configuration that enables serde (with or without std, with or
+    without serde_repr): the [cfg_attr] conditions of the attributes are evaluated per
+    configuration by the translator, so a validating attribute that is gated on another feature
+    than the derive it belongs to shows up here *)
+Theorem C19_validating_shapes_in_every_configuration :
+  forallb (fun cs => forallb (not_plain_derive (snd cs)) invariant_types) serde_shapes_by_cfg = true
+  /\ length serde_shapes_by_cfg = 4%nat.
+Proof. split; reflexivity. Qed.
 
 (** restricted integers in range (any JSON input) *)
 Theorem C19_integers_in_range : forall rmax max v n,
@@ -114,6 +125,7 @@ Proof.
 Qed.
 
 Print Assumptions C19_source_uses_validating_shapes.
+Print Assumptions C19_validating_shapes_in_every_configuration.
 Print Assumptions C19_integers_in_range.
 Print Assumptions C19_raw_valid.
 Print Assumptions C19_cc14_valid.
